@@ -149,6 +149,8 @@ func ingressSets() [][]kv.Ingress {
 func leafTerms() []kv.Term {
 	var ts []kv.Term
 	ts = append(ts, kv.Term{Op: "null"}, kv.Term{Op: "all"})
+	// the empty conjunction and the empty disjunction (and their negations) are compared with everything
+	ts = append(ts, kv.Term{Op: "and"}, kv.Term{Op: "or"}, kv.Term{Op: "not", Kids: []kv.Term{{Op: "and"}}}, kv.Term{Op: "not", Kids: []kv.Term{{Op: "or"}}})
 	for _, ids := range [][][2]string{
 		{}, {{"a", "x"}}, {{"a", ""}}, {{"", "x"}}, {{"a", "x"}, {"b", "y"}}, {{"b", "y"}, {"a", "x"}},
 		{{"a", ""}, {"", "y"}}, {{"", "y"}, {"a", ""}}, {{"a", "x"}, {"a", "x"}}, {{"c", "a"}, {"b", ""}, {"a", "y"}},
